@@ -48,6 +48,7 @@
 #endif
 
 #include "archive.h"
+#include "archive_private.h"
 
 struct read_FILE_data {
 	FILE    *f;
@@ -70,6 +71,8 @@ archive_read_open_FILE(struct archive *a, FILE *f)
 	size_t block_size = 128 * 1024;
 	void *b;
 
+	archive_check_magic(a, ARCHIVE_READ_MAGIC, ARCHIVE_STATE_NEW,
+	    "archive_read_open_FILE");
 	archive_clear_error(a);
 	mine = calloc(1, sizeof(*mine));
 	b = malloc(block_size);
